@@ -1758,7 +1758,11 @@ class UniqueIdShortNamespace(Namespace, metaclass=abc.ABCMeta):
                     # item is known to be a SubmodelElementList which supports __getitem__ because we're in
                     # the `is_submodel_element_list` branch, but mypy doesn't infer types based on isinstance checks
                     # stored in boolean variables.
-                    item = item.value[int(id_)]  # type: ignore
+                    index = int(id_)
+                    if index < 0:
+                        # A negative number does not denote a position in the list (Python would count from the end)
+                        raise IndexError(f"Negative index {index} is not a valid position in {item!r}")
+                    item = item.value[index]  # type: ignore
                 else:
                     item = item._get_object(Referable, "id_short", id_)  # type: ignore[type-abstract]
             except ValueError as e:
